@@ -62,6 +62,8 @@ def lib(f, *a, _strip_values=False, **k):
     """Run a library call; 'refused' = raised any Exception."""
     try:
         out = Out(True, f(*a, **k))
+    except Violation:                  # a verdict reached inside a guarded helper of ours is not a refusal by the library
+        raise
     except (NameError, UnboundLocalError, ImportError) as e:
         if _raised_in_harness(e):      # a typo in a lambda of ours is a harness error (exit 2), not a refusal
             raise HarnessBug(repr(e)) from e
@@ -77,6 +79,27 @@ def lib(f, *a, _strip_values=False, **k):
         else:
             RECORDER.append(["refused"])
     return out
+
+
+def lib_twice(f, *a, **k):
+    """lib(f) twice: the ndarray(s) the first call returned are the caller's and are overwritten before the second call,
+    whose outcome is returned.  A result that is a writable window onto something the library keeps (a cache, an operand)
+    shows up as a wrong second result or a changed operand."""
+    first = lib(f, *a, **k)
+    if first.ok:
+        from npstructures import RaggedArray
+        vals = first.value if isinstance(first.value, (tuple, list)) else [first.value]
+        for v in vals:
+            if isinstance(v, RaggedArray):
+                fl = lib(lambda: v.ravel())
+                v = fl.value if fl.ok else None
+            if isinstance(v, np.ndarray) and v.size and v.flags.writeable and v.dtype != object:
+                with np.errstate(all="ignore"):
+                    v[...] = 1 if not v.astype(bool).any() else 0
+    second = lib(f, *a, **k)
+    if first.ok != second.ok:
+        raise Violation("same-call-twice:outcome-kind-differs", first=first.brief(), second=second.brief())
+    return second
 
 
 def describe(v):
@@ -119,9 +142,34 @@ def np_flat(case):
     return np.array(case["vals"], dtype=case["dt"]) if len(case["vals"]) else np.zeros(0, dtype=case["dt"])
 
 
-def mk_ra(case):
+def buffer_layout(flat, salt=0):
+    """the same 1-D buffer (same values, same dtype), now and then as a non-contiguous view: every second cell of a larger
+    buffer or a negative-stride view.  Which one is a pure function of the buffer's size and `salt` (replayable)."""
+    k = (flat.size + salt) % 7
+    if k == 3 and flat.size:
+        big = np.zeros(2 * flat.size + 1, dtype=flat.dtype)
+        big[1::2] = flat
+        return big[1::2]
+    if k == 5 and flat.size:
+        return np.ascontiguousarray(flat[::-1])[::-1]
+    return flat
+
+
+def build_ra(flat, lens):
+    """RaggedArray(flat buffer, row lengths).  Every third shape or so hands the lengths over as an int64 ndarray and
+    overwrites that ndarray right after construction: the lengths vector stays the caller's, the array must not follow it."""
     from npstructures import RaggedArray
-    return RaggedArray(np_flat(case), list(case["lens"]))
+    lens = [int(l) for l in lens]
+    if (len(lens) + sum(lens)) % 3 == 1 and lens:
+        arr = np.array(lens, dtype=np.int64)
+        ra = RaggedArray(flat, arr)
+        arr[:] = arr[::-1] + 3
+        return ra
+    return RaggedArray(flat, lens)
+
+
+def mk_ra(case):
+    return build_ra(buffer_layout(np_flat(case), len(case["lens"])), case["lens"])
 
 
 def ra_from_rows(rows, dtype="int64"):
@@ -310,8 +358,8 @@ def expect_unchanged(ra, rows, dtype, what, **info):
 
 # ---------------------------------------------------------------- lazy operands
 
-LAZY_MODES = 7
-LAZY_CHOICES = [0, 0, 0, 1, 2, 3, 4, 5, 6]     # what sub-checks draw the operand mode from
+LAZY_MODES = 12
+LAZY_CHOICES = [0, 0, 0, 0, 1, 2, 3, 4, 5, 6, 7, 8, 9, 10, 11]     # what sub-checks draw the operand mode from
 
 
 def lazy_ra(rows, dtype, mode):
@@ -326,7 +374,7 @@ def lazy_ra(rows, dtype, mode):
 
     def build(rs):
         flat = np.concatenate([np.zeros(0, dtype=dt)] + list(rs)).astype(dt)
-        return RaggedArray(flat, [len(r) for r in rs])
+        return build_ra(buffer_layout(flat, len(rs)), [len(r) for r in rs])
     mode = mode % LAZY_MODES
     if mode == 0:
         return build(rows)
@@ -353,8 +401,20 @@ def lazy_ra(rows, dtype, mode):
             out[1::2] = junk[0]
             return out
         return build([weave(r) for r in rows])[:, ::2]
-    # mode 6: every row stored backwards, column slice with step -1
-    return build([r[::-1] for r in rows])[:, ::-1]
+    if mode == 6:      # every row stored backwards, column slice with step -1
+        return build([r[::-1] for r in rows])[:, ::-1]
+    # modes 7-11: not pending selections but *results* of public operations (whatever internal flags those leave behind)
+    b = build(rows)
+    if mode == 7:
+        return b[...]
+    if mode == 8:
+        return b[()]
+    if mode == 9:
+        return np.maximum(b, b)
+    if mode == 10:
+        return b.astype(dt)
+    k = n // 2
+    return np.concatenate([b[:k], b[k:]])
 
 
 # ---------------------------------------------------------------- observables (shared with C19)
